@@ -5,6 +5,7 @@ import (
 	"encoding/binary"
 	"errors"
 	"fmt"
+	"github.com/klev-dev/klevdb/pkg/vhook"
 	"hash/crc32"
 	"io"
 	"os"
@@ -137,6 +138,7 @@ func OpenWriter(path string, offset int64, newVersion Version) (w *Writer, retEr
 		if _, err := f.Write(h[:]); err != nil {
 			return nil, fmt.Errorf("write log header: %w", err)
 		}
+		vhook.FS("create", path, int64(len(h)))
 		pos = int64(len(h))
 		v = newVersion
 	} else {
@@ -209,6 +211,7 @@ func (w *Writer) writeV1(m Message) (int64, error) {
 		return 0, fmt.Errorf("write log: %w", err)
 	} else {
 		w.pos += int64(n)
+		vhook.FS("write", w.Path, int64(n))
 	}
 	return pos, nil
 }
@@ -256,6 +259,7 @@ func (w *Writer) writeV2(m Message) (int64, error) {
 		return 0, fmt.Errorf("write log: %w", err)
 	} else {
 		w.pos += int64(n)
+		vhook.FS("write", w.Path, int64(n))
 	}
 	return pos, nil
 }
@@ -268,6 +272,7 @@ func (w *Writer) Sync() error {
 	if err := w.f.Sync(); err != nil {
 		return fmt.Errorf("write log sync: %w", err)
 	}
+	vhook.FS("fsync", w.Path, w.pos)
 	return nil
 }
 
